@@ -23,7 +23,7 @@ def gen_bench(rs, noise_allowed=True, tier="quick"):
         b["calc"] = "continuous" if kind == "l2c" else "stepwise"
         b["noise"] = (round(r.choice([r.uniform(0.01, 0.3), r.uniform(0.3, 3.0)]), 4) if (noise_allowed and r.random() < 0.6) else 0)
     V = r.choice([120, 208, 208, 240, 277])
-    period = r.choice([1, 5, 5, 7.5, 15, 60])
+    period = r.choice([1, 5, 5, 7.5, 15, 60, 60, 90, 120, 240])
     pmax = max_power * 1000.0 / V
     n = r.randint(1, 200 if tier == "thorough" else 60)
     ops = []
@@ -37,6 +37,9 @@ def gen_bench(rs, noise_allowed=True, tier="quick"):
         if k < 0.045:
             ops.append({"op": "reset_to", "frac": r.choice([0.0, 1.0, r.uniform(0, 1)])})
             continue
+        if k < 0.07:
+            ops.append({"op": "roundtrip"})      # restart: the battery is saved to JSON and loaded; the sequence continues on the copy
+            continue
         if mode == "const":
             p = base
         elif mode == "ramp":
@@ -45,7 +48,7 @@ def gen_bench(rs, noise_allowed=True, tier="quick"):
             p = r.choice([0, base, 10 * pmax])
         else:
             p = r.choice([0, 1e-9, 1e-3, r.uniform(0, pmax), r.uniform(0, 2 * pmax), pmax, 10 * pmax, r.choice([6, 8, 16, 32])])
-        ops.append({"op": "charge", "pilot": p, "period": period if r.random() < 0.9 else r.choice([1, 5, 15, 60])})
+        ops.append({"op": "charge", "pilot": p, "period": period if r.random() < 0.9 else r.choice([1, 5, 15, 60, 120])})
     tape = r.choice(["prng", "zeros", "extreme", "alt"])
     return {"seed": rs, "battery": b, "voltage": V, "ops": ops, "tapes": {"noise": tape}}
 
@@ -82,6 +85,10 @@ def run_bench(sc, on_call):
             pre = (float(batt._current_charge), float(batt.current_charging_power))
             if op["op"] == "reset_to":
                 batt.reset(sc["battery"]["capacity"] * op["frac"])
+                on_call(i, op, pre, (float(batt._current_charge), float(batt.current_charging_power)), None, batt)
+                continue
+            if op["op"] == "roundtrip":
+                batt = type(batt).from_json(batt.to_json())
                 on_call(i, op, pre, (float(batt._current_charge), float(batt.current_charging_power)), None, batt)
                 continue
             if op["op"] == "reset":
